@@ -1147,6 +1147,13 @@ func (ex *Exec) step(st *State, fr *Frame, instr ssa.Instruction) bool {
 			}
 			fr.env[in] = Select(x.A, idx)
 		case StringV:
+			if x.Sym {
+				if !ex.require(st, Ult(idx, x.Len), "index out of range", pos) {
+					return false
+				}
+				fr.env[in] = Select(x.Arr, idx)
+				return true
+			}
 			if !ex.require(st, Ult(idx, Const(64, uint64(len(x.S)))), "index out of range", pos) {
 				return false
 			}
@@ -2394,6 +2401,15 @@ func (ex *Exec) havoc(st *State, t types.Type, why string) Value {
 	case *types.Interface:
 		// nil or opaque non-nil: choose by fresh bool is not expressible as a value; return opaque non-nil
 		return IfaceV{T: t, V: OpaqueV{"havoc:" + why, ex.nextObj}}
+	case *types.Basic:
+		if u.Info()&types.IsString != 0 {
+			// an arbitrary (bounded) string, not ""
+			ex.fresh++
+			nm := fmt.Sprintf("havoc.str!%d", ex.fresh)
+			n := ex.namedVar(nm+".len", BV(64))
+			st.pc = append(st.pc, Ule(n, Const(64, 12)))
+			return StringV{Sym: true, Arr: AVar(nm, 8), Len: n, Max: 12, U: False}
+		}
 	}
 	return zeroValue(t)
 }
